@@ -21,7 +21,7 @@ SIM = os.path.join(VERIF, "sim")
 BUILD = os.path.join(VERIF, "build")
 CXX = "g++"
 
-HARNESS_SRCS = ["simrt.cpp", "oracle.cpp", "plan.cpp", "exec.cpp", "main.cpp", "gomp_extra.cpp"]
+HARNESS_SRCS = ["simrt.cpp", "oracle.cpp", "plan.cpp", "exec.cpp", "main.cpp"]
 REDEFINE_MEM = {"memcpy": "simw_memcpy", "memset": "simw_memset", "memmove": "simw_memmove"}
 REDEFINE_HEAP = {"malloc": "simw_malloc", "free": "simw_free", "calloc": "simw_calloc", "realloc": "simw_realloc",
                  "_Znwm": "simw_Znwm", "_Znam": "simw_Znam", "_ZdlPv": "simw_ZdlPv", "_ZdlPvm": "simw_ZdlPvm",
@@ -124,6 +124,8 @@ def audit(objs_dir, repo_objs, flavour):
             sym = line.split()[-1]
             if sym in defined:
                 continue
+            if flavour.startswith("asan") and sym in REDEFINE_HEAP:
+                continue  # ASan's allocator interposes these
             if not ALLOWED_UNDEF.match(sym):
                 info["uninstrumented_external_symbols"].append(os.path.basename(o) + ":" + sym)
     srcs, hdrs = repo_sources()
@@ -197,8 +199,39 @@ def build(flavour, verbose=False):
     return binp, info
 
 
+def selftest():
+    """Simulator self-test on OpenMP kernels that are not from the repository (sim/selftest_omp.cpp)."""
+    hobjs, _ = harness_objects("tsh-avx2")
+    simrt = [o for o in hobjs if o.endswith("simrt.cpp.o")]
+    src = os.path.join(SIM, "selftest_omp.cpp")
+    d = os.path.join(BUILD, "selftest-" + file_hash([src] + simrt))
+    binp = os.path.join(d, "selftest")
+    if not os.path.exists(binp):
+        for old in glob.glob(os.path.join(BUILD, "selftest-*")):
+            shutil.rmtree(old, ignore_errors=True)
+        os.makedirs(d, exist_ok=True)
+        o = os.path.join(d, "selftest.o")
+        r = sh([CXX, "-std=c++17", "-O2", "-g1", "-fopenmp", "-fsanitize=thread"] + NOBUILTIN + ["-I" + SIM, "-c", src, "-o", o])
+        if r.returncode == 0:
+            r = sh([CXX, "-no-pie", "-o", binp, o] + simrt)
+        if r.returncode != 0:
+            shutil.rmtree(d, ignore_errors=True)
+            raise RuntimeError("selftest-build", r.stdout[-3000:])
+    r = sh([binp], timeout=600)
+    if r.returncode != 0:
+        raise RuntimeError("selftest", r.stdout[-3000:])
+    return r.stdout.strip().splitlines()[-1]
+
+
 if __name__ == "__main__":
     fls = sys.argv[1:] or ["tsh-avx2"]
+    if "selftest" in fls:
+        fls.remove("selftest")
+        try:
+            print(selftest())
+        except RuntimeError as e:
+            print("HARNESS-ERROR", *e.args)
+            sys.exit(2)
     for f in fls:
         try:
             b, info = build(f)
